@@ -972,3 +972,11 @@ func SpecContains(s string, sub string) bool { return false }
 //@   modifies heap
 //@   ensures an_error_stays_an_error: err != nil ==> result != nil
 //@   ensures a_control_answer_is_never_taken_for_data: err == nil && resp != nil && resp.Code != golang.SyncResponse_META && resp.Code != golang.SyncResponse_CONTINUE ==> result != nil
+
+//@ func ReplicaFollower.metaSync
+//@   arith int
+//@   properties C16
+//@   replay syncer_clearAnswer
+//@   requires nonnil: rf != nil && cli != nil
+//@   modifies heap
+//@   assert at call handleResp: a_refusal_received_from_the_leader_clears_the_copy_it_refers_to: resp != nil ==> len(args) == 1
